@@ -83,6 +83,35 @@ def o_reported(A, via):
     return oracle
 
 
+def o_ls_step(A):
+    """one line-search sweep in isolation: the iterate after iteration L (a line-search iteration, L in
+    {6, 8, 10}) against the iterate before it (runs n_iter_max = L+1 and L).  Five times cheaper than the
+    full prefix trace, so that the rare harmful jump (an extrapolation that is worse than the previous
+    iterate: 0.6 % of the jumps) is met often enough to notice a line search that accepts everything."""
+    def oracle(case):
+        data = A.data(case)
+        xv = A.xvec(data)
+        x2 = float(xv @ xv)
+        L = int(case["ls_iter"])
+        snaps = []
+        for k in (L, L + 1):
+            dec, _ = A.run(data, case, k)
+            snaps.append((k, A.copy(dec)))
+        _precondition(A, snaps, case)
+        fs = [A.objective(s, data, case, xv) for _, s in snaps]
+        xi.check_monotone(fs, x2 + _mag(A, snaps), "objective/monotone@ls-step", first_index=L)
+        return {"nontrivial": bool(fs[0] - fs[1] > 1e-6 * max(fs[0], 1e-300)),
+                "labels": [f"ls_iter={L}", f"data={case['X']['k']}", f"nn={case.get('nn_modes')}"]}
+    return oracle
+
+
+@st.composite
+def ls_step_case(draw):
+    c = draw(g.parafac2_case("linesearch", iters=[11], tols=TOL, nn_choices=([0], [2], [0, 2], "all", [1])))
+    c["ls_iter"] = draw(st.sampled_from([6, 8, 10]))
+    return c
+
+
 def o_nnls(case):
     U, M, V0, its, out = xi.run_hals_nnls(case)
     check(len(its) >= 1, "callback/invoked", "hals_nnls never invoked the callback")
@@ -160,7 +189,7 @@ def subchecks(tier):
     S = []
 
     def add(name, strat, oracle, quick=50, thorough=250, exc=LinAlg, **kw):
-        S.append(SubCheck(name, strat, oracle, quick=2 * quick, thorough=2 * thorough, discard_exc=exc,
+        S.append(SubCheck(name, strat, oracle, quick=5 * quick, thorough=6 * thorough, discard_exc=exc,
                           budget_quick=45.0, budget_thorough=100.0, shards_thorough=2, **kw))
 
     # --- parafac (callback iterates, incl. the initial one) ------------------
@@ -177,8 +206,8 @@ def subchecks(tier):
     nn_kinds = ("nonneg", "lowrank_nonneg", "normal", "int", "lowrank_noise")
     for grp, kw in {"plain": dict(orders=(2, 3, 4)), "normalize": dict(orders=(3, 4)), "normalize_o2": dict(orders=(2,))}.items():
         strat = g.cp_case(kinds=nn_kinds, opts=hals_opts(grp), iters=[3, 4, 6], tols=TOL, inits=("random", "svd", "user"), **kw)
-        add(f"non_negative_parafac_hals/{grp}/objective", strat, o_objective(H, "prefix"), quick=20, thorough=80)
-        add(f"non_negative_parafac_hals/{grp}/reported", strat, o_reported(H, "prefix"), quick=20, thorough=80)
+        add(f"non_negative_parafac_hals/{grp}/objective", strat, o_objective(H, "prefix"), quick=14, thorough=80)
+        add(f"non_negative_parafac_hals/{grp}/reported", strat, o_reported(H, "prefix"), quick=14, thorough=80)
 
     # --- Tucker / HOOI ---------------------------------------------------------
     T, PT = xi.TuckerHOOI(), xi.PartialTucker()
@@ -195,19 +224,22 @@ def subchecks(tier):
     # 'linesearch_nn1' = line search + nn_modes containing mode 1: kept apart (defect N2 in notes/c07.md: an accepted
     # jump is not clipped on mode 1, the next HALS sweep starts from an infeasible B and the objective rises)
     for grp in ("plain", "nn", "linesearch", "linesearch_nn1"):
-        pits = {"nn": [3, 4], "linesearch": [8, 9, 11], "linesearch_nn1": [8, 9, 11]}.get(grp, [3, 5, 8])
-        q = {"nn": 15, "linesearch": 25, "linesearch_nn1": 15}.get(grp, 40)
+        pits = {"nn": [3, 4], "linesearch": [8, 9, 11], "linesearch_nn1": [8, 9]}.get(grp, [3, 5, 8])
+        q = {"nn": 15, "linesearch": 15, "linesearch_nn1": 8}.get(grp, 30)
         nnc = ([0], [2], [0, 2]) if grp == "linesearch" else ([0], [2], [0, 2], "all", [1], [0, 1])
         add(f"parafac2/{grp}/objective", g.parafac2_case(grp, iters=pits, tols=TOL, nn_choices=nnc),
             o_objective(F2, "prefix"), quick=q, thorough=4 * q)
         add(f"parafac2/{grp}/reported", g.parafac2_case(grp, iters=pits, tols=TOL, nn_choices=nnc),
             o_reported(F2, "prefix"), quick=q, thorough=4 * q)
 
+    add("parafac2/linesearch_step/objective", ls_step_case(), o_ls_step(F2), quick=60, thorough=300)
+
     # --- tensor ring ALS (callback iterates) -----------------------------------------
     TR = xi.TensorRingALS()
     for solver in ("lstsq", "normal_eq"):
-        strat = g.tr_case(solver, iters=its, tols=(0.0, 1e-14),
-                          kinds=xi.KINDS_NOISY if solver == "normal_eq" else xi.KINDS_ALL)
+        # noisy data only: on exactly low-rank data the sub-chain design matrices become rank deficient
+        # (ill-posed block problems, discarded by the conditioning rule) in a third of the cases
+        strat = g.tr_case(solver, iters=its, tols=(0.0, 1e-14), kinds=xi.KINDS_NOISY)
         add(f"tensor_ring_als/{solver}/objective", strat, o_objective(TR, "callback"), quick=100, thorough=500)
         add(f"tensor_ring_als/{solver}/reported", strat, o_reported(TR, "callback"), quick=100, thorough=500)
 
